@@ -1,1 +1,642 @@
-/- property theorems for C17 (filled in below) -/
+/-
+C17 — the Lie-group maps are homomorphisms onto the groups they name.
+Only property theorems and non-vacuity examples live here; helper lemmas are in
+`GT.Lemmas.Lie`, `GT.Lemmas.So31`, `GT.Lemmas.IrrepDet`, `GT.Lemmas.Irrep.*`.
+Model: `GT.Model.Lie`.  The dimensions `n = 4, 5, 6` of `sl2_irrep` are in
+`GT.Properties.C17_n4/5/6` (imported here).
+-/
+import GT.Lemmas.Irrep.N1Det
+import GT.Lemmas.Irrep.N2Det
+import GT.Lemmas.Irrep.N3Det
+import GT.Properties.C17_n4
+import GT.Properties.C17_n5
+import GT.Properties.C17_n6
+import GT.Properties.C17_nd
+import GT.Lemmas.So31
+import GT.Lemmas.So31Det
+import Mathlib.LinearAlgebra.Matrix.NonsingularInverse
+import Mathlib.Analysis.SpecialFunctions.Sqrt
+import Mathlib.Tactic.Positivity
+
+open Matrix Finset BigOperators
+
+set_option linter.unusedSectionVars false
+set_option linter.unusedSimpArgs false
+
+namespace GT.C17
+open GT.Lie
+
+/-! ## irreducible representations `SL(2) → SL(n)`, `n = 1, 2, 3` (4–6: `C17_n4/5/6`) -/
+
+section irrep
+variable {R : Type*} [CommRing R]
+
+theorem sl2Irrep_mul_1 (A B : Matrix (Fin 2) (Fin 2) R) :
+    sl2Irrep 1 (A * B) = sl2Irrep 1 A * sl2Irrep 1 B := GT.Lie.sl2Irrep_mul_1 A B
+theorem sl2Irrep_mul_2 (A B : Matrix (Fin 2) (Fin 2) R) :
+    sl2Irrep 2 (A * B) = sl2Irrep 2 A * sl2Irrep 2 B := GT.Lie.sl2Irrep_mul_2 A B
+theorem sl2Irrep_mul_3 (A B : Matrix (Fin 2) (Fin 2) R) :
+    sl2Irrep 3 (A * B) = sl2Irrep 3 A * sl2Irrep 3 B := GT.Lie.sl2Irrep_mul_3 A B
+
+theorem sl2Irrep_one_1 : sl2Irrep 1 (1 : Matrix (Fin 2) (Fin 2) R) = 1 := GT.Lie.sl2Irrep_one_1
+theorem sl2Irrep_one_2 : sl2Irrep 2 (1 : Matrix (Fin 2) (Fin 2) R) = 1 := GT.Lie.sl2Irrep_one_2
+theorem sl2Irrep_one_3 : sl2Irrep 3 (1 : Matrix (Fin 2) (Fin 2) R) = 1 := GT.Lie.sl2Irrep_one_3
+
+theorem sl2Irrep_det_1 (A : Matrix (Fin 2) (Fin 2) R) : (sl2Irrep 1 A).det = A.det ^ 0 :=
+  GT.Lie.sl2Irrep_det_1 A
+theorem sl2Irrep_det_2 (A : Matrix (Fin 2) (Fin 2) R) : (sl2Irrep 2 A).det = A.det ^ 1 :=
+  GT.Lie.sl2Irrep_det_2 A
+theorem sl2Irrep_det_3 (A : Matrix (Fin 2) (Fin 2) R) : (sl2Irrep 3 A).det = A.det ^ 3 :=
+  GT.Lie.sl2Irrep_det_3 A
+
+/-- determinant one for every irreducible representation of dimension `1..6` -/
+theorem sl2Irrep_det_one (A : Matrix (Fin 2) (Fin 2) R) (h : A.det = 1) :
+    (sl2Irrep 1 A).det = 1 ∧ (sl2Irrep 2 A).det = 1 ∧ (sl2Irrep 3 A).det = 1 ∧
+    (sl2Irrep 4 A).det = 1 ∧ (sl2Irrep 5 A).det = 1 ∧ (sl2Irrep 6 A).det = 1 := by
+  refine ⟨?_, ?_, ?_, sl2Irrep_det_one_4 A h, sl2Irrep_det_one_5 A h, sl2Irrep_det_one_6 A h⟩
+  · rw [sl2Irrep_det_1, pow_zero]
+  · rw [sl2Irrep_det_2, h, one_pow]
+  · rw [sl2Irrep_det_3, h, one_pow]
+
+/-- the 2-dimensional representation is `A` in the reversed basis (`e₂` first) -/
+theorem sl2Irrep_two (A : Matrix (Fin 2) (Fin 2) R) :
+    sl2Irrep 2 A = !![A 1 1, A 1 0; A 0 1, A 0 0] := by
+  ext j k
+  fin_cases j <;> fin_cases k <;>
+    simp [sl2Irrep, sl2IrrepEntry, Finset.sum_Ico_eq_sum_range, Finset.sum_range_succ, Nat.choose]
+
+end irrep
+
+/-! ## `SL(2,ℝ) → SO(2,1)` -/
+
+section so21
+variable {K : Type*} [Field K]
+
+theorem sl2ToSo21_mul (h2 : (2 : K) ≠ 0) (A B : Matrix (Fin 2) (Fin 2) K) :
+    sl2ToSo21 (A * B) = sl2ToSo21 A * sl2ToSo21 B := by
+  unfold sl2ToSo21
+  rw [GT.Lie.sl2Irrep_mul_3]
+  have e : perm210 * killingConj * sl2Irrep 3 A * killingConjInv * perm210
+        * (perm210 * killingConj * sl2Irrep 3 B * killingConjInv * perm210)
+      = perm210 * killingConj * sl2Irrep 3 A * (killingConjInv * ((perm210 * perm210) * killingConj))
+        * sl2Irrep 3 B * killingConjInv * (perm210 : Matrix (Fin 3) (Fin 3) K) := by
+    simp only [Matrix.mul_assoc]
+  rw [e, perm210_mul_self, Matrix.one_mul, killingConjInv_mul h2, Matrix.mul_one]
+  simp only [Matrix.mul_assoc]
+
+theorem sl2ToSo21_one (h2 : (2 : K) ≠ 0) : sl2ToSo21 (1 : Matrix (Fin 2) (Fin 2) K) = 1 := by
+  unfold sl2ToSo21
+  rw [GT.Lie.sl2Irrep_one_3, Matrix.mul_one]
+  have e : perm210 * killingConj * killingConjInv * perm210
+      = perm210 * (killingConj * killingConjInv) * (perm210 : Matrix (Fin 3) (Fin 3) K) := by
+    simp only [Matrix.mul_assoc]
+  rw [e, killingConj_mul_inv h2, Matrix.mul_one, perm210_mul_self]
+
+/-- the image scales the form `diag(-1,1,1)` by `(det A)²` — both as `MᵀJM` (action on
+column vectors) and as `MJMᵀ` (the row-vector convention of `IsIso`) -/
+theorem sl2ToSo21_form (h2 : (2 : K) ≠ 0) (A : Matrix (Fin 2) (Fin 2) K) :
+    (sl2ToSo21 A)ᵀ * mink21 * sl2ToSo21 A = (A.det ^ 2) • (mink21 : Matrix (Fin 3) (Fin 3) K) ∧
+    sl2ToSo21 A * mink21 * (sl2ToSo21 A)ᵀ = (A.det ^ 2) • (mink21 : Matrix (Fin 3) (Fin 3) K) := by
+  have hS := sl2ToSo21_explicit h2 A
+  constructor <;>
+  · ext i j
+    fin_cases i <;> fin_cases j <;>
+      simp only [Matrix.mul_apply, Fin.sum_univ_three, mink21, Matrix.diagonal_apply,
+        Matrix.transpose_apply, Matrix.smul_apply, Fin.zero_eta, Fin.mk_one, Fin.reduceFinMk] <;>
+      rw [hS] <;> simp [Matrix.det_fin_two] <;> field_simp <;> ring
+
+/-- on `SL^±(2)` the image preserves `diag(-1,1,1)` -/
+theorem sl2ToSo21_isIso (h2 : (2 : K) ≠ 0) (A : Matrix (Fin 2) (Fin 2) K) (h : A.det ^ 2 = 1) :
+    (sl2ToSo21 A)ᵀ * mink21 * sl2ToSo21 A = mink21 ∧ sl2ToSo21 A * mink21 * (sl2ToSo21 A)ᵀ = mink21 := by
+  obtain ⟨h1, h2'⟩ := sl2ToSo21_form h2 A
+  rw [h, one_smul] at h1 h2'
+  exact ⟨h1, h2'⟩
+
+theorem sl2ToSo21_det (h2 : (2 : K) ≠ 0) (A : Matrix (Fin 2) (Fin 2) K) :
+    (sl2ToSo21 A).det = A.det ^ 3 := by
+  unfold sl2ToSo21
+  rw [Matrix.det_mul, Matrix.det_mul, Matrix.det_mul, Matrix.det_mul, GT.Lie.sl2Irrep_det_3]
+  have hP : (perm210 : Matrix (Fin 3) (Fin 3) K).det * perm210.det = 1 := by
+    rw [← Matrix.det_mul, perm210_mul_self, Matrix.det_one]
+  have hK : (killingConj : Matrix (Fin 3) (Fin 3) K).det * killingConjInv.det = 1 := by
+    rw [← Matrix.det_mul, killingConj_mul_inv h2, Matrix.det_one]
+  calc perm210.det * killingConj.det * A.det ^ 3 * killingConjInv.det * perm210.det
+      = (perm210.det * perm210.det) * (killingConj.det * killingConjInv.det) * A.det ^ 3 := by ring
+    _ = A.det ^ 3 := by rw [hP, hK]; ring
+
+/-- `SL(2)` lands in `SO(2,1)`: form preserved and determinant one -/
+theorem sl2ToSo21_so21 (h2 : (2 : K) ≠ 0) (A : Matrix (Fin 2) (Fin 2) K) (h : A.det = 1) :
+    (sl2ToSo21 A)ᵀ * mink21 * sl2ToSo21 A = mink21 ∧ (sl2ToSo21 A).det = 1 := by
+  refine ⟨(sl2ToSo21_isIso h2 A (by rw [h]; ring)).1, ?_⟩
+  rw [sl2ToSo21_det h2, h, one_pow]
+
+example : sl2ToSo21 (!![2, 3; 1, 2] : Matrix (Fin 2) (Fin 2) ℚ) = !![9, 4, 8; -4, -1, -4; 8, 4, 7] := by
+  ext i j
+  fin_cases i <;> fin_cases j <;>
+    simp [sl2ToSo21, sl2Irrep_three, perm210, killingConj, killingConjInv, Matrix.mul_apply,
+      Fin.sum_univ_succ] <;> norm_num
+
+end so21
+
+/-! ## adjoint representations of `GL(n)` and `SL(n)`, every `n` -/
+
+section adjoint
+variable {R : Type*} [CommRing R] {ι : Type*} [DecidableEq ι] [Fintype ι]
+
+/-- `linear_matrix_action` is functorial on linear maps: the matrix of a composite is the
+product of the matrices (any index type, so every `n`) -/
+theorem linearMatrixAction_mul (f g : Matrix ι ι R →ₗ[R] Matrix ι ι R) :
+    linearMatrixAction (fun M => f (g M)) = linearMatrixAction f * linearMatrixAction g :=
+  linearMatrixAction_comp f g
+
+/-- `gln_adjoint(A B) = gln_adjoint(A) gln_adjoint(B)` with the inverses that `utils.invert`
+returns under its contract (`Ai`, `Bi`; the inverse of `A B` is then `Bi Ai`) -/
+theorem glnAdjoint_mul (A Ai B Bi : Matrix ι ι R) :
+    glnAdjoint (A * B) (Bi * Ai) = glnAdjoint A Ai * glnAdjoint B Bi := by
+  unfold glnAdjoint
+  have h := linearMatrixAction_comp (conjLin A Ai) (conjLin B Bi)
+  have e1 : (fun M => A * B * M * (Bi * Ai)) = fun M => conjLin A Ai (conjLin B Bi M) := by
+    funext M
+    simp only [conjLin_apply, Matrix.mul_assoc]
+  rw [e1, h]; rfl
+
+/-- the same statement with the inverse of the product supplied by the contract -/
+theorem glnAdjoint_mul' (A Ai B Bi ABi : Matrix ι ι R) (hA : Ai * A = 1) (hB : Bi * B = 1)
+    (hAB : A * B * ABi = 1) :
+    glnAdjoint (A * B) ABi = glnAdjoint A Ai * glnAdjoint B Bi := by
+  have : ABi = Bi * Ai := by
+    calc ABi = (Bi * Ai * (A * B)) * ABi := by
+            rw [show Bi * Ai * (A * B) = Bi * (Ai * A) * B by simp only [Matrix.mul_assoc], hA,
+              Matrix.mul_one, hB, Matrix.one_mul]
+      _ = Bi * Ai * (A * B * ABi) := by simp only [Matrix.mul_assoc]
+      _ = Bi * Ai := by rw [hAB, Matrix.mul_one]
+  rw [this, glnAdjoint_mul]
+
+theorem glnAdjoint_one : glnAdjoint (1 : Matrix ι ι R) 1 = 1 := by
+  unfold glnAdjoint
+  simp only [Matrix.one_mul, Matrix.mul_one]
+  exact linearMatrixAction_id
+
+variable {n : ℕ}
+
+theorem slnAdjoint_mul (A Ai B Bi : Matrix (Fin (n + 1)) (Fin (n + 1)) R) (hB : Bi * B = 1) :
+    slnAdjoint (A * B) (Bi * Ai) = slnAdjoint A Ai * slnAdjoint B Bi := by
+  unfold slnAdjoint
+  have h := slnLinearAction_comp (conjLin A Ai) (conjLin B Bi) (by
+    intro p
+    rw [conjLin_apply, Matrix.trace_mul_cycle, hB, Matrix.one_mul, slnBasis_trace])
+  have e1 : (fun M => A * B * M * (Bi * Ai)) = fun M => conjLin A Ai (conjLin B Bi M) := by
+    funext M
+    simp only [conjLin_apply, Matrix.mul_assoc]
+  rw [e1, h]; rfl
+
+theorem slnAdjoint_one : slnAdjoint (1 : Matrix (Fin (n + 1)) (Fin (n + 1)) R) 1 = 1 := by
+  unfold slnAdjoint
+  simp only [Matrix.one_mul, Matrix.mul_one]
+  exact slnLinearAction_id
+
+/-- the adjoint representation preserves `sln_killing_form` (the trace form
+`(X,Y) ↦ tr(XY)` in the code's basis, a positive multiple of the Killing form):
+`Ad(g)ᵀ κ Ad(g) = κ` -/
+theorem killing_invariant (A Ai : Matrix (Fin (n + 1)) (Fin (n + 1)) R) (h1 : Ai * A = 1) :
+    (slnAdjoint A Ai)ᵀ * slnKilling * slnAdjoint A Ai = slnKilling := by
+  have htr : ∀ p : Fin (n + 1) × Fin (n + 1), Matrix.trace (A * slnBasis (R := R) p * Ai) = 0 := by
+    intro p
+    rw [Matrix.trace_mul_cycle, h1, Matrix.one_mul, slnBasis_trace]
+  have hcol : ∀ p : SlIdx n, (fun s => slnAdjoint A Ai s p) = slnCoords (A * slnBasis p.1 * Ai) := by
+    intro p; rfl
+  ext p q
+  have key := trace_mul_coords (A * slnBasis (R := R) p.1 * Ai) (A * slnBasis q.1 * Ai) (htr p.1) (htr q.1)
+  have lhs : ((slnAdjoint A Ai)ᵀ * slnKilling * slnAdjoint A Ai : Matrix (SlIdx n) (SlIdx n) R) p q
+      = slnCoords (A * slnBasis p.1 * Ai) ⬝ᵥ (slnKilling *ᵥ slnCoords (A * slnBasis q.1 * Ai)) := by
+    simp only [Matrix.mul_apply, Matrix.transpose_apply, dotProduct, Matrix.mulVec, Finset.sum_mul,
+      Finset.mul_sum]
+    rw [Finset.sum_comm]
+    refine Finset.sum_congr rfl fun s _ => Finset.sum_congr rfl fun t _ => ?_
+    show slnAdjoint A Ai s p * slnKilling s t * slnAdjoint A Ai t q = _
+    rw [show slnAdjoint A Ai s p = slnCoords (A * slnBasis p.1 * Ai) s from rfl,
+      show slnAdjoint A Ai t q = slnCoords (A * slnBasis q.1 * Ai) t from rfl]
+    ring
+  rw [lhs, ← key]
+  have : A * slnBasis (R := R) p.1 * Ai * (A * slnBasis q.1 * Ai)
+      = A * (slnBasis p.1 * slnBasis q.1) * Ai := by
+    calc A * slnBasis (R := R) p.1 * Ai * (A * slnBasis q.1 * Ai)
+        = A * slnBasis p.1 * (Ai * A) * slnBasis q.1 * Ai := by simp only [Matrix.mul_assoc]
+      _ = _ := by rw [h1, Matrix.mul_one]; simp only [Matrix.mul_assoc]
+  rw [this, Matrix.trace_mul_cycle, h1, Matrix.one_mul]
+  rfl
+
+/-- non-vacuity: `A = [[2,3],[1,2]]`, `Ai = [[2,-3],[-1,2]]` -/
+example : (slnAdjoint (!![2, 3; 1, 2] : Matrix (Fin 2) (Fin 2) ℤ) !![2, -3; -1, 2])ᵀ * slnKilling
+    * slnAdjoint !![2, 3; 1, 2] !![2, -3; -1, 2] = slnKilling :=
+  killing_invariant _ _ (by
+    ext i j; fin_cases i <;> fin_cases j <;> simp [Matrix.mul_apply, Fin.sum_univ_succ])
+
+end adjoint
+
+/-! ## realification and block inclusion, every `n` -/
+
+section blocks
+variable {R : Type*} [CommRing R] {n k : ℕ}
+
+/-- `slc_to_slr` is multiplicative: the product of `X₁+iY₁` and `X₂+iY₂` is
+`(X₁X₂ - Y₁Y₂) + i(X₁Y₂ + Y₁X₂)` -/
+theorem realify_mul (X₁ Y₁ X₂ Y₂ : Matrix (Fin n) (Fin n) R) :
+    realify (X₁ * X₂ - Y₁ * Y₂) (X₁ * Y₂ + Y₁ * X₂) = realify X₁ Y₁ * realify X₂ Y₂ := by
+  unfold realify
+  rw [Matrix.fromBlocks_multiply]
+  congr 1
+  · rw [Matrix.neg_mul, sub_eq_add_neg]
+  · rw [Matrix.mul_neg, Matrix.neg_mul, neg_add, add_comm]
+  · rw [add_comm]
+  · rw [Matrix.mul_neg, add_comm, sub_eq_add_neg]
+
+theorem realify_one : realify (1 : Matrix (Fin n) (Fin n) R) 0 = 1 := by
+  unfold realify
+  rw [neg_zero, Matrix.fromBlocks_one]
+
+/-- the same on matrices with entries in `Cx R` (pairs `re + i·im`), all `n` -/
+theorem realifyCx_mul (Z W : Matrix (Fin n) (Fin n) (Cx R)) :
+    realifyCx (Z * W) = realifyCx Z * realifyCx W := by
+  unfold realifyCx
+  rw [← realify_mul]
+  congr 1 <;>
+  · ext i j
+    simp only [Matrix.map_apply, Matrix.mul_apply, Matrix.sub_apply, Matrix.add_apply]
+    have hre : ∀ (s : Finset (Fin n)) (f : Fin n → Cx R), (∑ l ∈ s, f l).re = ∑ l ∈ s, (f l).re := by
+      intro s f
+      induction s using Finset.induction_on with
+      | empty => simp
+      | insert a s ha ih => rw [Finset.sum_insert ha, Finset.sum_insert ha, Cx.add_re, ih]
+    have him : ∀ (s : Finset (Fin n)) (f : Fin n → Cx R), (∑ l ∈ s, f l).im = ∑ l ∈ s, (f l).im := by
+      intro s f
+      induction s using Finset.induction_on with
+      | empty => simp
+      | insert a s ha ih => rw [Finset.sum_insert ha, Finset.sum_insert ha, Cx.add_im, ih]
+    first
+      | rw [hre, ← Finset.sum_sub_distrib]; exact Finset.sum_congr rfl fun l _ => by simp
+      | rw [him, ← Finset.sum_add_distrib]; exact Finset.sum_congr rfl fun l _ => by simp
+
+theorem realifyCx_one : realifyCx (1 : Matrix (Fin n) (Fin n) (Cx R)) = 1 := by
+  unfold realifyCx
+  have h1 : (1 : Matrix (Fin n) (Fin n) (Cx R)).map Cx.re = 1 := by
+    ext i j; by_cases h : i = j <;> simp [Matrix.one_apply, h]
+  have h2 : (1 : Matrix (Fin n) (Fin n) (Cx R)).map Cx.im = 0 := by
+    ext i j; by_cases h : i = j <;> simp [Matrix.one_apply, h]
+  rw [h1, h2, realify_one]
+
+theorem blockInclude_mul (A B : Matrix (Fin n) (Fin n) R) :
+    blockInclude (k := k) (A * B) = blockInclude A * blockInclude B := by
+  unfold blockInclude
+  rw [Matrix.fromBlocks_multiply]
+  simp
+
+theorem blockInclude_one : blockInclude (k := k) (1 : Matrix (Fin n) (Fin n) R) = 1 := by
+  unfold blockInclude
+  rw [Matrix.fromBlocks_one]
+
+theorem blockInclude_det (A : Matrix (Fin n) (Fin n) R) : (blockInclude (k := k) A).det = A.det := by
+  unfold blockInclude
+  rw [Matrix.det_fromBlocks_zero₂₁, Matrix.det_one, mul_one]
+
+example : realifyCx (!![⟨1, 2⟩, ⟨0, 1⟩; ⟨3, 0⟩, ⟨1, -1⟩] * !![⟨0, 1⟩, ⟨2, 0⟩; ⟨1, 1⟩, ⟨0, 3⟩] :
+      Matrix (Fin 2) (Fin 2) (Cx ℤ))
+    = realifyCx !![⟨1, 2⟩, ⟨0, 1⟩; ⟨3, 0⟩, ⟨1, -1⟩] * realifyCx !![⟨0, 1⟩, ⟨2, 0⟩; ⟨1, 1⟩, ⟨0, 3⟩] :=
+  realifyCx_mul _ _
+
+end blocks
+
+/-! ## `SL(2,ℂ) → SO(3,1)` (complex numbers as pairs over `K`) -/
+
+section so31
+variable {K : Type*} [Field K]
+
+theorem sl2cToSo31_mul (h2 : (2 : K) ≠ 0) (M N : Matrix (Fin 2) (Fin 2) (Cx K)) :
+    sl2cToSo31 (M * N) = sl2cToSo31 M * sl2cToSo31 N := by
+  unfold sl2cToSo31
+  rw [sl2cHermAction_mul h2]
+  have e : so31BasisInv * sl2cHermAction M * so31Basis * (so31BasisInv * sl2cHermAction N * so31Basis)
+      = so31BasisInv * sl2cHermAction M * (so31Basis * so31BasisInv) * sl2cHermAction N
+        * (so31Basis : Matrix (Fin 4) (Fin 4) K) := by
+    simp only [Matrix.mul_assoc]
+  rw [e, so31Basis_mul_inv h2, Matrix.mul_one]
+  simp only [Matrix.mul_assoc]
+
+theorem sl2cToSo31_one (h2 : (2 : K) ≠ 0) : sl2cToSo31 (1 : Matrix (Fin 2) (Fin 2) (Cx K)) = 1 := by
+  unfold sl2cToSo31
+  rw [sl2cHermAction_one h2, Matrix.mul_one, so31BasisInv_mul h2]
+
+/-- the imaginary part discarded by `utils.real` is identically zero -/
+theorem sl2cHermAction_real (M : Matrix (Fin 2) (Fin 2) (Cx K)) (i j : Fin 4) :
+    (sl2cHermActionCx M i j).im = 0 := sl2cHermActionCx_im M i j
+
+/-- the image scales `diag(-1,1,1,1)` by `|det M|²` -/
+theorem sl2cToSo31_form (h2 : (2 : K) ≠ 0) (M : Matrix (Fin 2) (Fin 2) (Cx K)) :
+    (sl2cToSo31 M)ᵀ * mink31 * sl2cToSo31 M = detNormSq M • (mink31 : Matrix (Fin 4) (Fin 4) K) := by
+  unfold sl2cToSo31
+  have e : (so31BasisInv * sl2cHermAction M * so31Basis)ᵀ * mink31
+        * (so31BasisInv * sl2cHermAction M * so31Basis)
+      = so31Basisᵀ * ((sl2cHermAction M)ᵀ * (so31BasisInvᵀ * mink31 * so31BasisInv) * sl2cHermAction M)
+        * (so31Basis : Matrix (Fin 4) (Fin 4) K) := by
+    simp only [Matrix.transpose_mul, Matrix.mul_assoc]
+  rw [e, so31BasisInv_form h2, sl2cHermAction_form h2, Matrix.mul_smul, Matrix.smul_mul,
+    so31Basis_form h2]
+
+/-- `SL(2,ℂ)` preserves `diag(-1,1,1,1)` -/
+theorem sl2cToSo31_preserves (h2 : (2 : K) ≠ 0) (M : Matrix (Fin 2) (Fin 2) (Cx K)) (h : M.det = 1) :
+    (sl2cToSo31 M)ᵀ * mink31 * sl2cToSo31 M = mink31 := by
+  rw [sl2cToSo31_form h2, detNormSq, h]
+  simp
+
+/-- `det sl2c_to_so31(M) = |det M|⁴`: determinant one on `SL(2,ℂ)` -/
+theorem sl2cToSo31_det (h2 : (2 : K) ≠ 0) (M : Matrix (Fin 2) (Fin 2) (Cx K)) :
+    (sl2cToSo31 M).det = detNormSq M ^ 2 := sl2cToSo31_det' h2 M
+
+theorem sl2cToSo31_so31 (h2 : (2 : K) ≠ 0) (M : Matrix (Fin 2) (Fin 2) (Cx K)) (h : M.det = 1) :
+    (sl2cToSo31 M)ᵀ * mink31 * sl2cToSo31 M = mink31 ∧ (sl2cToSo31 M).det = 1 := by
+  refine ⟨sl2cToSo31_preserves h2 M h, ?_⟩
+  rw [sl2cToSo31_det h2, detNormSq, h]
+  simp
+
+example : detNormSq (!![⟨1, 1⟩, ⟨2, 0⟩; ⟨0, 1⟩, ⟨3 / 2, 1 / 2⟩] : Matrix (Fin 2) (Fin 2) (Cx ℚ)) = 1 := by
+  simp [detNormSq, Matrix.det_fin_two]; norm_num
+
+end so31
+
+/-! ## `O(2,1) → PGL(2)`: recovery of `±A` (repaired code) and the pinned tree's failure -/
+
+section pgl
+variable {K : Type*} [Field K] [LinearOrder K] [IsStrictOrderedRing K] {r : K → K}
+
+/-- **the last clause of C17 on the repaired tree**: `o_to_pgl (sl2_to_so21 A) = ±A` for
+every real 2×2 matrix of non-zero determinant — in particular every `A ∈ SL(2,ℝ)`,
+including those with vanishing entries -/
+theorem oToPgl_recovers (hr : IsSqrt r) (A : Matrix (Fin 2) (Fin 2) K) (h : A.det ≠ 0) :
+    oToPgl r (sl2ToSo21 A) = A ∨ oToPgl r (sl2ToSo21 A) = -A := by
+  unfold oToPgl
+  rw [oToPglAd_sl2ToSo21 two_ne_zero, normSign_irrep, sl2Irrep_three]
+  have hdet : A 0 0 * A 1 1 - A 0 1 * A 1 0 ≠ 0 := by rwa [Matrix.det_fin_two] at h
+  have := extract_spec hr
+    (!![A 1 1 ^ 2, A 1 0 * A 1 1, A 1 0 ^ 2;
+        2 * A 0 1 * A 1 1, A 0 0 * A 1 1 + A 0 1 * A 1 0, 2 * A 0 0 * A 1 0;
+        A 0 1 ^ 2, A 0 0 * A 0 1, A 0 0 ^ 2])
+    (A 0 0) (A 0 1) (A 1 0) (A 1 1) (by simp) (by simp) (by simp) (by simp) (by simp) (by simp)
+    (by simp) (by simp) (by simp) (middle_row_pos _ _ _ _ hdet)
+  rcases this with e | e
+  · left; rw [e]; ext i j; fin_cases i <;> fin_cases j <;> simp
+  · right; rw [e]; ext i j; fin_cases i <;> fin_cases j <;> simp
+
+/-- `O(2,1) → PGL(2)` kills `-1`: the same answer for `-sl2_to_so21 A` -/
+theorem oToPgl_neg (A : Matrix (Fin 2) (Fin 2) K) (h : A.det ≠ 0) :
+    oToPgl r (-sl2ToSo21 A) = oToPgl r (sl2ToSo21 A) := by
+  unfold oToPgl
+  rw [oToPglAd_neg, oToPglAd_sl2ToSo21 two_ne_zero, normSign_irrep, normSign_neg_irrep A h]
+
+/-- … hence, on all matrices `±sl2_to_so21 A` (`det A ≠ 0`; for real `A` with `det A = ±1`
+these are all of `O(2,1)`), `±A` is recovered -/
+theorem oToPgl_recovers_pm (hr : IsSqrt r) (A : Matrix (Fin 2) (Fin 2) K) (h : A.det ≠ 0) (ε : K)
+    (hε : ε = 1 ∨ ε = -1) :
+    oToPgl r (ε • sl2ToSo21 A) = A ∨ oToPgl r (ε • sl2ToSo21 A) = -A := by
+  rcases hε with rfl | rfl
+  · rw [one_smul]; exact oToPgl_recovers hr A h
+  · rw [neg_one_smul, oToPgl_neg A h]; exact oToPgl_recovers hr A h
+
+/-- … and a homomorphism up to sign on that group of matrices -/
+theorem oToPgl_hom_up_to_sign_pm (hr : IsSqrt r) (A B : Matrix (Fin 2) (Fin 2) K)
+    (hA : A.det ≠ 0) (hB : B.det ≠ 0) (ε δ : K) (hε : ε = 1 ∨ ε = -1) (hδ : δ = 1 ∨ δ = -1) :
+    oToPgl r ((ε • sl2ToSo21 A) * (δ • sl2ToSo21 B))
+        = oToPgl r (ε • sl2ToSo21 A) * oToPgl r (δ • sl2ToSo21 B) ∨
+    oToPgl r ((ε • sl2ToSo21 A) * (δ • sl2ToSo21 B))
+        = -(oToPgl r (ε • sl2ToSo21 A) * oToPgl r (δ • sl2ToSo21 B)) := by
+  have hAB : (A * B).det ≠ 0 := by rw [Matrix.det_mul]; exact mul_ne_zero hA hB
+  have hprod : (ε • sl2ToSo21 A) * (δ • sl2ToSo21 B) = (ε * δ) • sl2ToSo21 (A * B) := by
+    rw [Matrix.smul_mul, Matrix.mul_smul, smul_smul, sl2ToSo21_mul two_ne_zero]
+  have hεδ : ε * δ = 1 ∨ ε * δ = -1 := by
+    rcases hε with rfl | rfl <;> rcases hδ with rfl | rfl <;> simp
+  rw [hprod]
+  rcases oToPgl_recovers_pm hr (A * B) hAB _ hεδ with e | e <;>
+  rcases oToPgl_recovers_pm hr A hA ε hε with ea | ea <;>
+  rcases oToPgl_recovers_pm hr B hB δ hδ with eb | eb <;>
+  rw [e, ea, eb] <;> simp
+
+/-- … in particular a homomorphism up to sign on the image of `SL^±(2)` -/
+theorem oToPgl_hom_up_to_sign (hr : IsSqrt r) (A B : Matrix (Fin 2) (Fin 2) K)
+    (hA : A.det ≠ 0) (hB : B.det ≠ 0) :
+    oToPgl r (sl2ToSo21 A * sl2ToSo21 B) = oToPgl r (sl2ToSo21 A) * oToPgl r (sl2ToSo21 B) ∨
+    oToPgl r (sl2ToSo21 A * sl2ToSo21 B) = -(oToPgl r (sl2ToSo21 A) * oToPgl r (sl2ToSo21 B)) := by
+  rw [← sl2ToSo21_mul two_ne_zero]
+  have hAB : (A * B).det ≠ 0 := by rw [Matrix.det_mul]; exact mul_ne_zero hA hB
+  rcases oToPgl_recovers hr (A * B) hAB with e | e <;>
+  rcases oToPgl_recovers hr A hA with ea | ea <;>
+  rcases oToPgl_recovers hr B hB with eb | eb <;>
+  rw [e, ea, eb] <;> simp
+
+/-! ### the matrices `±sl2_to_so21 A` form a group, and `o_to_pgl` is a homomorphism to `PGL(2)` on it -/
+
+/-- the set on which the last clause is stated: `{ε · sl2_to_so21 A : ε = ±1, det A ≠ 0}`
+(for `det A = ±1` over ℝ: the images of `SL^±(2,ℝ)` and their negatives) -/
+def pmImage (K : Type*) [Field K] : Set (Matrix (Fin 3) (Fin 3) K) :=
+  {M | ∃ (A : Matrix (Fin 2) (Fin 2) K) (ε : K), A.det ≠ 0 ∧ (ε = 1 ∨ ε = -1) ∧ M = ε • sl2ToSo21 A}
+
+/-- the identity belongs to it -/
+theorem pmImage_one : (1 : Matrix (Fin 3) (Fin 3) K) ∈ pmImage K :=
+  ⟨1, 1, by simp, Or.inl rfl, by rw [one_smul, sl2ToSo21_one two_ne_zero]⟩
+
+/-- it is closed under products -/
+theorem pmImage_mul {M N : Matrix (Fin 3) (Fin 3) K} (hM : M ∈ pmImage K) (hN : N ∈ pmImage K) :
+    M * N ∈ pmImage K := by
+  obtain ⟨A, ε, hA, hε, rfl⟩ := hM
+  obtain ⟨B, δ, hB, hδ, rfl⟩ := hN
+  refine ⟨A * B, ε * δ, by rw [Matrix.det_mul]; exact mul_ne_zero hA hB, ?_, ?_⟩
+  · rcases hε with rfl | rfl <;> rcases hδ with rfl | rfl <;> simp
+  · rw [Matrix.smul_mul, Matrix.mul_smul, smul_smul, sl2ToSo21_mul two_ne_zero]
+
+/-- … and under inverses: every element has a two-sided inverse in the set -/
+theorem pmImage_inv {M : Matrix (Fin 3) (Fin 3) K} (hM : M ∈ pmImage K) :
+    ∃ N ∈ pmImage K, M * N = 1 ∧ N * M = 1 := by
+  obtain ⟨A, ε, hA, hε, rfl⟩ := hM
+  have hu : IsUnit A.det := isUnit_iff_ne_zero.2 hA
+  have hAi : A⁻¹.det ≠ 0 := by
+    have : A.det * A⁻¹.det = 1 := by rw [← Matrix.det_mul, Matrix.mul_nonsing_inv A hu, Matrix.det_one]
+    exact fun h => by rw [h, mul_zero] at this; exact zero_ne_one this
+  have hεε : ε * ε = 1 := by rcases hε with rfl | rfl <;> simp
+  refine ⟨ε • sl2ToSo21 A⁻¹, ⟨A⁻¹, ε, hAi, hε, rfl⟩, ?_, ?_⟩
+  · rw [Matrix.smul_mul, Matrix.mul_smul, smul_smul, hεε, one_smul, ← sl2ToSo21_mul two_ne_zero,
+      Matrix.mul_nonsing_inv A hu, sl2ToSo21_one two_ne_zero]
+  · rw [Matrix.smul_mul, Matrix.mul_smul, smul_smul, hεε, one_smul, ← sl2ToSo21_mul two_ne_zero,
+      Matrix.nonsing_inv_mul A hu, sl2ToSo21_one two_ne_zero]
+
+/-- `o_to_pgl` is a homomorphism to `PGL(2) = GL(2)/±` on that group: products go to products up
+to sign, the identity to `±1`, and every value has non-zero determinant -/
+theorem oToPgl_hom_on_pmImage (hr : IsSqrt r) {M N : Matrix (Fin 3) (Fin 3) K}
+    (hM : M ∈ pmImage K) (hN : N ∈ pmImage K) :
+    (oToPgl r (M * N) = oToPgl r M * oToPgl r N ∨ oToPgl r (M * N) = -(oToPgl r M * oToPgl r N)) ∧
+    (oToPgl r (1 : Matrix (Fin 3) (Fin 3) K) = 1 ∨ oToPgl r (1 : Matrix (Fin 3) (Fin 3) K) = -1) ∧
+    (oToPgl r M).det ≠ 0 := by
+  obtain ⟨A, ε, hA, hε, rfl⟩ := hM
+  obtain ⟨B, δ, hB, hδ, rfl⟩ := hN
+  refine ⟨oToPgl_hom_up_to_sign_pm hr A B hA hB ε δ hε hδ, ?_, ?_⟩
+  · have := oToPgl_recovers hr (1 : Matrix (Fin 2) (Fin 2) K) (by simp)
+    rwa [sl2ToSo21_one two_ne_zero] at this
+  · rcases oToPgl_recovers_pm hr A hA ε hε with e | e
+    · rw [e]; exact hA
+    · rw [e, Matrix.det_neg]; simpa using hA
+
+/-- `sl2_to_so21` is injective up to sign (so `SL(2)/±1` embeds): a consequence of the recovery -/
+theorem sl2ToSo21_injective_pm (hr : IsSqrt r) (A B : Matrix (Fin 2) (Fin 2) K) (hA : A.det ≠ 0)
+    (hB : B.det ≠ 0) (h : sl2ToSo21 A = sl2ToSo21 B) : A = B ∨ A = -B := by
+  rcases oToPgl_recovers hr A hA with ea | ea <;> rcases oToPgl_recovers hr B hB with eb | eb
+  · left; rw [← ea, h, eb]
+  · right; rw [← ea, h, eb]
+  · right; rw [h, eb] at ea; rw [ea, neg_neg]
+  · left; rw [h, eb] at ea; exact (neg_injective ea).symm
+
+/-- the image of `SL(2)` preserves the time orientation: the `(0,0)` entry is `≥ 1`, so
+`sl2_to_so21(SL(2,ℝ)) ⊆ SO⁺(2,1)` (with `sl2ToSo21_so21`) -/
+theorem sl2ToSo21_time_pos (A : Matrix (Fin 2) (Fin 2) K) (h : A.det = 1) : 1 ≤ sl2ToSo21 A 0 0 := by
+  rw [sl2ToSo21_explicit two_ne_zero]
+  rw [Matrix.det_fin_two] at h
+  simp only [Matrix.of_apply, Matrix.cons_val', Matrix.cons_val_zero, Matrix.empty_val', Matrix.cons_val_fin_one]
+  rw [le_div_iff₀ (by norm_num : (0 : K) < 2)]
+  nlinarith [sq_nonneg (A 0 0 - A 1 1), sq_nonneg (A 0 1 + A 1 0)]
+
+/- NOT PROVED (stated for the record): surjectivity `SO⁺(2,1) ⊆ sl2_to_so21(SL(2,ℝ))`, i.e. that
+`pmImage ℝ` restricted to `det A = ±1` is all of `O(2,1)`.  It needs the Veronese relations of the
+conjugated matrix to be derived from `MᵀJM = J`, `det M = 1`, `M₀₀ > 0` (a Gröbner-basis style
+computation; no `polyrith` in this image).  What is proved: the set is a group (`pmImage_one/mul/inv`),
+it lies in `O(2,1)` (`sl2ToSo21_isIso`), `SL(2)` lands in `SO⁺(2,1)` (`sl2ToSo21_so21`,
+`sl2ToSo21_time_pos`), the map is injective modulo `±1`, and `o_to_pgl` is its inverse and a
+homomorphism to `PGL(2)` on the group. -/
+
+/-! ### the `bilinear_form=` option: any form of signature (2,1), under the `diagonalize_form` contract -/
+
+/-- the default form is the instance `W = Winv = (2,1,0)-permutation` -/
+theorem oToPgl_eq_form (S : Matrix (Fin 3) (Fin 3) K) : oToPgl r S = oToPglForm r perm210 perm210 S := rfl
+
+/-- `A_d` is a conjugation, hence multiplicative — *provided* the second matrix returned by
+`diagonalize_form` is the inverse of the first (it is `Wᵀ` only when `W` is orthogonal) -/
+theorem oToPglAdForm_mul (W Winv S T : Matrix (Fin 3) (Fin 3) K) (hW : W * Winv = 1) :
+    oToPglAdForm W Winv (S * T) = oToPglAdForm W Winv S * oToPglAdForm W Winv T := by
+  unfold oToPglAdForm
+  have e : killingConjInv * Winv * S * (W * killingConj) * (killingConjInv * Winv * T * (W * killingConj))
+      = killingConjInv * Winv * S * (W * (killingConj * killingConjInv) * Winv) * T * (W * killingConj) := by
+    simp only [Matrix.mul_assoc]
+  rw [e, killingConj_mul_inv two_ne_zero, Matrix.mul_one, hW, Matrix.mul_one]
+  simp only [Matrix.mul_assoc]
+
+/-- if `W` carries the given form to the standard one so that the conjugated isometry is the
+image of `A` (`Winv S W = P · sl2_to_so21 A · P`), `o_to_pgl(S, form)` is `±A` -/
+theorem oToPglForm_recovers (hr : IsSqrt r) (A : Matrix (Fin 2) (Fin 2) K) (h : A.det ≠ 0)
+    (W Winv S : Matrix (Fin 3) (Fin 3) K) (hS : Winv * S * W = perm210 * sl2ToSo21 A * perm210) :
+    oToPglForm r W Winv S = A ∨ oToPglForm r W Winv S = -A := by
+  have e : oToPglAdForm W Winv S = oToPglAd (sl2ToSo21 A) := by
+    unfold oToPglAdForm oToPglAd
+    calc killingConjInv * Winv * S * (W * killingConj)
+        = killingConjInv * (Winv * S * W) * killingConj := by simp only [Matrix.mul_assoc]
+      _ = killingConjInv * perm210 * sl2ToSo21 A * (perm210 * killingConj) := by
+          rw [hS]; simp only [Matrix.mul_assoc]
+  have := oToPgl_recovers hr A h
+  unfold oToPglForm
+  unfold oToPgl at this
+  rw [e]; exact this
+
+/-- **negative result for the pinned tree** (D11): with its entry/sign extraction,
+`o_to_pgl (sl2_to_so21 A)` for `A = [[2,3],[1,2]] ∈ SL(2)` is `[[2,1],[3,2]] = P·A·P`, which is
+neither `A` nor `-A`: the last clause of the property is false of the pinned code -/
+theorem oToPglPinned_not_recovers (hr : IsSqrt r) :
+    oToPglPinned r (sl2ToSo21 (!![2, 3; 1, 2] : Matrix (Fin 2) (Fin 2) K)) = !![2, 1; 3, 2] ∧
+    ¬ (oToPglPinned r (sl2ToSo21 (!![2, 3; 1, 2] : Matrix (Fin 2) (Fin 2) K)) = !![2, 3; 1, 2] ∨
+       oToPglPinned r (sl2ToSo21 (!![2, 3; 1, 2] : Matrix (Fin 2) (Fin 2) K)) = -!![2, 3; 1, 2]) := by
+  have r4 : r |(2 : K) ^ 2| = 2 := by rw [isSqrt_abs_sq hr, abs_of_pos]; norm_num
+  have r9 : r |(3 : K) ^ 2| = 3 := by rw [isSqrt_abs_sq hr, abs_of_pos]; norm_num
+  have r1 : r |(1 : K) ^ 2| = 1 := by rw [isSqrt_abs_sq hr, abs_of_pos]; norm_num
+  have hval : oToPglPinned r (sl2ToSo21 (!![2, 3; 1, 2] : Matrix (Fin 2) (Fin 2) K)) = !![2, 1; 3, 2] := by
+    unfold oToPglPinned
+    rw [oToPglAd_sl2ToSo21 two_ne_zero, sl2Irrep_three]
+    unfold extractPinned
+    simp only [Matrix.of_apply, Matrix.cons_val', Matrix.cons_val_zero, Matrix.cons_val_one,
+      Matrix.cons_val_two, Matrix.head_cons, Matrix.tail_cons, Matrix.empty_val', Matrix.cons_val_fin_one,
+      Matrix.head_fin_const]
+    simp only [r4, r9, r1]
+    norm_num
+  refine ⟨hval, ?_⟩
+  rw [hval]
+  rintro (e | e)
+  · have := congrFun (congrFun e 0) 1
+    norm_num at this
+  · have := congrFun (congrFun e 0) 0
+    norm_num at this
+
+/-- what the pinned extraction does compute (**partial**: only under `c ≠ 0`, `d ≠ 0`; when
+an entry vanishes the pinned signs are wrong, e.g. `[[0,1],[-1,0]] ↦ [[0,1],[1,0]]`):
+`o_to_pgl (sl2_to_so21 A) = ±P·A·P`, `P` the swap matrix -/
+theorem oToPglPinned_partial (hr : IsSqrt r) (A : Matrix (Fin 2) (Fin 2) K)
+    (hc : A 1 0 ≠ 0) (hd : A 1 1 ≠ 0) :
+    oToPglPinned r (sl2ToSo21 A) = !![A 1 1, A 1 0; A 0 1, A 0 0] ∨
+    oToPglPinned r (sl2ToSo21 A) = -!![A 1 1, A 1 0; A 0 1, A 0 0] := by
+  unfold oToPglPinned
+  rw [oToPglAd_sl2ToSo21 two_ne_zero, sl2Irrep_three]
+  unfold extractPinned
+  simp only [Matrix.of_apply, Matrix.cons_val', Matrix.cons_val_zero, Matrix.cons_val_one,
+    Matrix.cons_val_two, Matrix.head_cons, Matrix.tail_cons, Matrix.empty_val', Matrix.cons_val_fin_one,
+    Matrix.head_fin_const]
+  set a := A 0 0
+  set b := A 0 1
+  set c := A 1 0
+  set d := A 1 1
+  have hdd : r |d ^ 2| = |d| := isSqrt_abs_sq hr d
+  have hcc : r |c ^ 2| = |c| := isSqrt_abs_sq hr c
+  have hbb : r |b ^ 2| = |b| := isSqrt_abs_sq hr b
+  have haa : r |a ^ 2| = |a| := isSqrt_abs_sq hr a
+  rw [hdd, hcc, hbb, haa]
+  have hc2 : 0 < c ^ 2 := by positivity
+  rcases lt_or_gt_of_ne hd with hd0 | hd0
+  · -- d < 0: everything comes out negated
+    right
+    have e1 : (if c * d < 0 then -|c| else |c|) = -c := by
+      rcases lt_or_gt_of_ne hc with h | h
+      · rw [if_neg (not_lt.2 (mul_pos_of_neg_of_neg h hd0).le), abs_of_neg h]
+      · rw [if_pos (mul_neg_of_pos_of_neg h hd0), abs_of_pos h]
+    have e2 : (if 2 * b * d < 0 then -|b| else |b|) = -b := by
+      rcases lt_trichotomy b 0 with h | h | h
+      · rw [if_neg (by nlinarith), abs_of_neg h]
+      · rw [h]; simp
+      · rw [if_pos (by nlinarith), abs_of_pos h]
+    have e3 : (if 2 * a * c * (c * d) < 0 then -|a| else |a|) = -a := by
+      have : 2 * a * c * (c * d) = 2 * (c ^ 2 * d) * a := by ring
+      have hneg : c ^ 2 * d < 0 := mul_neg_of_pos_of_neg hc2 hd0
+      rcases lt_trichotomy a 0 with h | h | h
+      · rw [if_neg (by rw [this]; nlinarith), abs_of_neg h]
+      · rw [h]; simp
+      · rw [if_pos (by rw [this]; nlinarith), abs_of_pos h]
+    rw [e1, e2, e3, abs_of_neg hd0]
+    ext i j; fin_cases i <;> fin_cases j <;> simp
+  · left
+    have e1 : (if c * d < 0 then -|c| else |c|) = c := by
+      rcases lt_or_gt_of_ne hc with h | h
+      · rw [if_pos (mul_neg_of_neg_of_pos h hd0), abs_of_neg h, neg_neg]
+      · rw [if_neg (not_lt.2 (mul_pos h hd0).le), abs_of_pos h]
+    have e2 : (if 2 * b * d < 0 then -|b| else |b|) = b := by
+      rcases lt_trichotomy b 0 with h | h | h
+      · rw [if_pos (by nlinarith), abs_of_neg h, neg_neg]
+      · rw [h]; simp
+      · rw [if_neg (by nlinarith), abs_of_pos h]
+    have e3 : (if 2 * a * c * (c * d) < 0 then -|a| else |a|) = a := by
+      have : 2 * a * c * (c * d) = 2 * (c ^ 2 * d) * a := by ring
+      have hpos : 0 < c ^ 2 * d := mul_pos hc2 hd0
+      rcases lt_trichotomy a 0 with h | h | h
+      · rw [if_pos (by rw [this]; nlinarith), abs_of_neg h, neg_neg]
+      · rw [h]; simp
+      · rw [if_neg (by rw [this]; nlinarith), abs_of_pos h]
+    rw [e1, e2, e3, abs_of_pos hd0]
+
+end pgl
+
+/-- the statement read by a user: over ℝ with `Real.sqrt`, `o_to_pgl ∘ sl2_to_so21 = ±id` on `SL(2,ℝ)` -/
+theorem oToPgl_recovers_real (A : Matrix (Fin 2) (Fin 2) ℝ) (h : A.det = 1) :
+    oToPgl Real.sqrt (sl2ToSo21 A) = A ∨ oToPgl Real.sqrt (sl2ToSo21 A) = -A :=
+  oToPgl_recovers (fun x hx => ⟨Real.sqrt_nonneg x, Real.mul_self_sqrt hx⟩) A (by rw [h]; exact one_ne_zero)
+
+example : (!![0, 1; -1, 0] : Matrix (Fin 2) (Fin 2) ℝ).det = 1 := by simp [Matrix.det_fin_two]
+
+end GT.C17
